@@ -303,14 +303,18 @@ func c13WholeRun(t *testing.T, s *sim.Scn) *sim.Outcome {
 // finish: goroutines of the code under test wait for each other.
 func c13Stalled(s *sim.Scn, o *sim.Outcome, dump string) {
 	o.V = nil
-	if strings.Contains(dump, "simNetDelay") {
-		o.Count("inconclusive:fake-clock-held-up-by-a-lock-across-simulated-network-wait", 1)
-		o.NonTrivial = false
-		return
-	}
+	o.NonTrivial = false
 	var waits []string
+	busy := false
 	for _, blk := range strings.Split(dump, "\n\n") {
-		if strings.Contains(blk, "synctest bubble") && !strings.Contains(strings.SplitN(blk, "\n", 2)[0], "(durable)") {
+		head := strings.SplitN(blk, "\n", 2)[0]
+		if !strings.Contains(head, "synctest bubble") {
+			continue
+		}
+		if strings.Contains(head, "[running") || strings.Contains(head, "[runnable") {
+			busy = true
+		}
+		if !strings.Contains(head, "(durable)") {
 			lines := strings.Split(blk, "\n")
 			if len(lines) > 14 {
 				lines = lines[:14]
@@ -318,10 +322,19 @@ func c13Stalled(s *sim.Scn, o *sim.Outcome, dump string) {
 			waits = append(waits, strings.Join(lines, " | "))
 		}
 	}
+	switch {
+	case busy:
+		// goroutines keep running at one instant of simulated time (e.g. a retry loop on the zero-latency network)
+		o.Count("inconclusive:busy-at-one-instant-of-simulated-time", 1)
+		return
+	case strings.Contains(dump, "simNetDelay"):
+		o.Count("inconclusive:fake-clock-held-up-by-a-lock-across-simulated-network-wait", 1)
+		return
+	}
 	if len(waits) > 3 {
 		waits = waits[:3]
 	}
-	o.Fail("C13/activities-wait-for-each-other", "", -1, fmt.Sprintf("the timeline made no progress for 60 s of wall-clock time although no goroutine waits for simulated time; goroutines not durably blocked: %s", strings.Join(waits, " || ")), "every activity makes progress or returns")
+	o.Fail("C13/activities-wait-for-each-other", "", -1, fmt.Sprintf("the simulated clock stopped: nothing in the bubble runs or waits for simulated time, and these goroutines are not durably blocked: %s", strings.Join(waits, " || ")), "every activity makes progress or returns")
 }
 
 // c13InitDirected: every schedule (all 2^11 choice prefixes) of "first header / first data item written
